@@ -1,0 +1,62 @@
+//go:build verif
+
+package jrpc2
+
+import "sort"
+
+// VerifHook, if set, is called at each instrumentation site reached by the
+// server and client. It exists only in builds with the "verif" tag and is used
+// by an external verification harness to observe and order goroutine steps.
+// All sites lie outside the critical sections of the server and client
+// mutexes, so the hook may block.
+var VerifHook func(site string, a, b any)
+
+func verifPoint(site string, a, b any) {
+	if h := VerifHook; h != nil {
+		h(site, a, b)
+	}
+}
+
+// VerifServerSnapshot is a read-only summary of a server's guarded state.
+type VerifServerSnapshot struct {
+	Running   bool     // the server has a channel
+	Reserved  []string // request IDs currently reserved, sorted
+	Callbacks []string // outstanding callback IDs, sorted
+	QueueLen  int      // batches in the inbound queue
+	CallID    int64    // next callback ID
+}
+
+// VerifSnapshot returns a snapshot of the guarded state of s.
+func (s *Server) VerifSnapshot() VerifServerSnapshot {
+	s.mu.Lock()
+	defer s.mu.Unlock()
+	snap := VerifServerSnapshot{Running: s.ch != nil, QueueLen: s.inq.Len(), CallID: s.callID}
+	for id := range s.used {
+		snap.Reserved = append(snap.Reserved, id)
+	}
+	for id := range s.call {
+		snap.Callbacks = append(snap.Callbacks, id)
+	}
+	sort.Strings(snap.Reserved)
+	sort.Strings(snap.Callbacks)
+	return snap
+}
+
+// VerifClientSnapshot is a read-only summary of a client's guarded state.
+type VerifClientSnapshot struct {
+	Stopped bool     // the client has recorded a stop cause
+	Pending []string // IDs of requests awaiting a reply, sorted
+	NextID  int64    // next request ID
+}
+
+// VerifSnapshot returns a snapshot of the guarded state of c.
+func (c *Client) VerifSnapshot() VerifClientSnapshot {
+	c.mu.Lock()
+	defer c.mu.Unlock()
+	snap := VerifClientSnapshot{Stopped: c.err != nil, NextID: c.nextID}
+	for id := range c.pending {
+		snap.Pending = append(snap.Pending, id)
+	}
+	sort.Strings(snap.Pending)
+	return snap
+}
